@@ -1,6 +1,6 @@
 (* C07 — Closed sessions leave nothing behind and session limits are exact. *)
-From Coq Require Import List NArith Bool.
-From Verif Require Import model.Hub proofs.Hub_wf proofs.Hub_corollaries.
+From Coq Require Import List NArith Bool Permutation.
+From Verif Require Import model.Hub proofs.Hub_wf proofs.Hub_corollaries proofs.Hub_counted.
 Import ListNotations.
 Open Scope N_scope.
 
@@ -25,15 +25,71 @@ Proof. exact no_empty_room. Qed.
 Theorem C07_limit_never_exceeded : forall h b l, WF h -> aget h.(h_counted) b = Some l ->
   N.of_nat (length l) <= limit_of h b /\ forall sid, In sid l -> live h sid.
 Proof. exact limit_never_exceeded. Qed.
-(* C07_limit_exact_partial: that every registered non-internal session of a limited backend is on that
-   list (so the bound is a bound on the sessions, not only on the list) is checked on every implementation
-   state by P_C07 (limits_ok_from: counted flag of every client session) and by the comparison with the
-   model; racing registrations are atomic steps of the model (Backend.AddSession holds a lock).  Bus
-   subscriptions are not part of the model's state (the bus is the harness's): registrations_exact checks
-   them on the implementation. *)
+(* Conversely, in every reachable state (any history, any delivery order of the bus) every registered
+   non-internal session of a limited backend is on that backend's list: the bound is a bound on the
+   sessions, not only on the list.  CI (proofs/Hub_counted.v) also says that every entry of the list is a
+   live non-internal session of that backend and that neither the session table nor the lists have
+   duplicates. *)
+Theorem C07_counted_every_history : forall limits gated ops,
+  forall sid s, let h := run (init limits gated) ops in
+  get_sess h sid = Some s -> s.(s_kind) = KClient -> limit_of h s.(s_backend) <> 0 ->
+  In sid (counted_of h s.(s_backend)).
+Proof. exact counted_reachable. Qed.
+Theorem C07_counted_every_history_q : forall limits gated ops,
+  forall sid s, let h := qrun (init limits gated) ops in
+  get_sess h sid = Some s -> s.(s_kind) = KClient -> limit_of h s.(s_backend) <> 0 ->
+  In sid (counted_of h s.(s_backend)).
+Proof. exact counted_reachable_q. Qed.
+Theorem C07_counted_invariant_every_history : forall limits gated ops,
+  CI (run (init limits gated) ops) /\ CI (qrun (init limits gated) ops).
+Proof. exact ci_every_history. Qed.
+(* The number of concurrently registered non-internal sessions of a limited backend never exceeds the
+   limit: any duplicate-free list of such sessions is no longer than the limit ... *)
+Theorem C07_registered_never_exceed_limit : forall h b l,
+  WF h -> Counted h -> limit_of h b <> 0 -> NoDup l ->
+  (forall sid, In sid l -> exists s, get_sess h sid = Some s /\ s.(s_kind) = KClient /\ s.(s_backend) = b) ->
+  N.of_nat (length l) <= limit_of h b.
+Proof. exact registered_never_exceed_limit. Qed.
+(* ... in particular the list of all of them, read off the session table, after every history. *)
+Theorem C07_registered_never_exceed_limit_every_history : forall limits gated ops b,
+  let h := run (init limits gated) ops in
+  limit_of h b <> 0 ->
+  N.of_nat (length (map fst (filter (fun e => match (snd e).(s_kind) with
+                                              | KClient => N.eqb (snd e).(s_backend) b
+                                              | _ => false end) h.(h_sessions)))) <= limit_of h b.
+Proof. exact registered_clients_never_exceed_limit_reachable. Qed.
+Theorem C07_registered_never_exceed_limit_every_history_q : forall limits gated ops b,
+  let h := qrun (init limits gated) ops in
+  limit_of h b <> 0 ->
+  N.of_nat (length (map fst (filter (fun e => match (snd e).(s_kind) with
+                                              | KClient => N.eqb (snd e).(s_backend) b
+                                              | _ => false end) h.(h_sessions)))) <= limit_of h b.
+Proof. exact registered_clients_never_exceed_limit_reachable_q. Qed.
+(* The limit is exact: the list the limit is checked against is a permutation of the registered
+   non-internal sessions of the backend, so a registration is refused exactly when their number equals
+   the limit (limit_history in proofs/Hub_counted.v: two register, the third is refused, after a bye the
+   third registers).  Racing registrations are atomic steps of the model (Backend.AddSession holds a
+   lock); on the implementation P_C07 (limits_ok_from: counted flag of every client session) checks the
+   same on every state.  Bus subscriptions are not part of the model's state (the bus is the harness's):
+   registrations_exact checks them on the implementation. *)
+Theorem C07_limit_exact : forall h b, CI h -> limit_of h b <> 0 -> Permutation (clients_of h b) (counted_of h b).
+Proof. exact counted_exact. Qed.
+Theorem C07_refused_iff_full : forall h c cn b u,
+  WF h -> CI h -> limit_of h b <> 0 ->
+  (snd (register h c cn b KClient u) = [ToConn c (SError E_session_limit)]
+   <-> N.of_nat (length (clients_of h b)) = limit_of h b).
+Proof. exact register_refused_iff_full. Qed.
 
 Print Assumptions C07_invariant_every_history.
 Print Assumptions C07_no_residue.
 Print Assumptions C07_close_session_ends.
 Print Assumptions C07_no_empty_room.
 Print Assumptions C07_limit_never_exceeded.
+Print Assumptions C07_counted_every_history.
+Print Assumptions C07_counted_every_history_q.
+Print Assumptions C07_counted_invariant_every_history.
+Print Assumptions C07_registered_never_exceed_limit.
+Print Assumptions C07_registered_never_exceed_limit_every_history.
+Print Assumptions C07_registered_never_exceed_limit_every_history_q.
+Print Assumptions C07_limit_exact.
+Print Assumptions C07_refused_iff_full.
